@@ -139,7 +139,8 @@ pub fn supertype_fn(info: &LangInfo, st: Option<&'static str>) -> impl Fn(&XTree
         // in the stmts grammar an identifier that is a direct child of fn_def or params is not an expression
         if let Some(p) = n.parent {
             let pk = lang.node_kind_for_id(xt.nodes[p].kind_id).unwrap_or("");
-            if pk == "fn_def" || pk == "params" { return false; }
+            // (likewise below pragma and sigil_decl: the grammar uses `identifier` there directly, not through `_expr`)
+            if pk == "fn_def" || pk == "params" || pk == "pragma" || pk == "sigil_decl" { return false; }
         }
         true
     }
